@@ -3,7 +3,7 @@
     Sink/ReaderProofs.v, the models in Sink/Model.v and Sink/Reader.v. *)
 From Coq Require Import List NArith Bool Arith Lia.
 From PQ Require Import Sink.Model Sink.Proofs Sink.Termination Sink.Reader Sink.ReaderProofs.
-From PQ Require Import Sink.Liveness Sink.Copy Sink.CopyProofs Sink.Demand Sink.DemandProofs Sink.FullErr Sink.Bloom.
+From PQ Require Import Sink.Liveness Sink.Copy Sink.CopyProofs Sink.Demand Sink.DemandProofs Sink.FullErr Sink.Bloom Sink.Once.
 Import ListNotations.
 Open Scope N_scope.
 
@@ -477,6 +477,45 @@ Example C14_full_count_error_example :
     [IPlain (mkSite KHeader MWrite [(true, [80; 65; 82; 49])]); ICopied KCopiedData [(false, [1; 2])] 2] = (CDst ESink, 1%nat, 6, true).
 Proof. vm_compute. repeat split. Qed.
 
+(** The TRANSIENT fault of the destination (Sink/Once.v [once_write]: the
+    first write that reaches offset k stops there with an error, every later
+    write is complete; harness fault kind "once", swept through every write
+    entry point).  Up to and including the first error the destination
+    returns, it is the destination [ErrAt k] write by write - same bytes
+    accepted, same count, same error - and that error comes with a short
+    count: this is why the verdict of the model for [ErrAt k]
+    (C14_err_fault_surfaces: first reporting site) is the one the harness
+    demands of the transient fault.  That no later, successful call makes the
+    writer forget the error is NOT in the model (which stops at the first
+    report): it is the predicate of the sweep (every call returned nil => the
+    destination returned no error and holds the complete file). *)
+Theorem C14_transient_error_is_err_at_until_it_strikes :
+  forall (A : Type) (k : N) (s : sink A) (p : list A),
+  s_flt s = ErrAt k -> s_fired s = false ->
+  let '(s1, n1, e1) := sink_write A s p in
+  let '(s2, n2, e2) := once_write A k s p in
+  s_rev s1 = s_rev s2 /\ s_pos s1 = s_pos s2 /\ n1 = n2 /\ e1 = e2 /\ s_fired s2 = is_err e2.
+Proof. exact once_write_is_err_at. Qed.
+
+Theorem C14_transient_error_loses_bytes :
+  forall (A : Type) (k : N) (s : sink A) (p : list A) s' n,
+  s_fired s = false -> s_pos s <= k -> once_write A k s p = (s', n, ESink) -> n < nlen A p.
+Proof. exact once_write_error_is_short. Qed.
+
+Theorem C14_transient_error_then_healthy :
+  forall (A : Type) (k : N) (s : sink A) (p : list A),
+  s_fired s = true -> once_write A k s p = (sink_accept A s p true, nlen A p, ENone).
+Proof. exact once_write_after. Qed.
+
+(* non-vacuity: a write of four bytes at offset 0 with k = 2 takes two bytes
+   and fails; the next write is complete *)
+Example C14_transient_error_example :
+  let s0 := mkSink (A:=N) [] 0 (ErrAt 2) false in
+  let '(s1, n1, e1) := once_write N 2 s0 [80; 65; 82; 49] in
+  (n1, e1, s_fired s1) = (2, ESink, true) /\
+  snd (once_write N 2 s1 [1; 2; 3]) = ENone /\ snd (fst (once_write N 2 s1 [1; 2; 3])) = 3.
+Proof. vm_compute. repeat split. Qed.
+
 (** Bloom filter lookups over a source that fails after the file was opened
     (Sink/Bloom.v): through the filter of one column chunk or through the
     filters of several row groups seen as one (MultiRowGroup, which is what
@@ -522,6 +561,9 @@ Print Assumptions C14_full_count_error_surfaces.
 Print Assumptions C14_bloom_stored_value_never_absent.
 Print Assumptions C14_bloom_absent_means_no_failure.
 Print Assumptions C14_copy_full_count_error_surfaces.
+Print Assumptions C14_transient_error_is_err_at_until_it_strikes.
+Print Assumptions C14_transient_error_loses_bytes.
+Print Assumptions C14_transient_error_then_healthy.
 
 (** ** The reader's demand *)
 
